@@ -15,7 +15,24 @@ pub fn format_parse_error(input: &str, err: nom::Err<NomError<&str>>) -> String 
     match err {
         nom::Err::Error(e) | nom::Err::Failure(e) => {
             let error_pos = e.input;
-            let offset = input.len() - error_pos.len();
+            // The reported slice is usually a suffix of the source, but validation
+            // errors carry the offending lexeme instead: locate it by address and
+            // keep the offset on a character boundary so that slicing and the
+            // annotation span stay valid for multi-byte text.
+            let source_start = input.as_ptr() as usize;
+            let error_start = error_pos.as_ptr() as usize;
+            let mut offset = if (source_start..=source_start + input.len()).contains(&error_start) {
+                error_start - source_start
+            } else {
+                input.len().saturating_sub(error_pos.len())
+            };
+            while !input.is_char_boundary(offset) {
+                offset -= 1;
+            }
+            let span_end = input[offset..]
+                .chars()
+                .next()
+                .map_or(offset, |character| offset + character.len_utf8());
             
             // Calculate line and column numbers
             let mut line_no = 1;
@@ -94,7 +111,7 @@ pub fn format_parse_error(input: &str, err: nom::Err<NomError<&str>>) -> String 
                             .fold(false)
                             .annotation(
                                 AnnotationKind::Primary
-                                    .span(offset..offset.saturating_add(1).min(input.len()))
+                                    .span(offset..span_end)
                                     .label(&final_label)
                             )
                     )
